@@ -393,8 +393,26 @@ def rule_g6(ctx):
             raise Unrecognised("C04.G6", c, "computation of the common nonterminal prefixes is not in the recognised shape")
     occ = f"[path[:idx] for idx in range(len(prefix) + 1, len(path)) if context_tree.get_subtree(path[:idx]).value == nonterminal]"
     if occ not in t:
-        raise Unrecognised("C04.G6", c, "computation of the nonterminal occurrences between anchor and node is not in the recognised shape")
-    ctx.ok("G6-level-anchors", c, "occurrences strictly between anchor and node", site(f), "range(len(prefix) + 1, len(path))")
+        # recognised-bad variants of the range: it must enumerate the proper prefixes of the node's path that are strictly longer than the anchor
+        comp = next((x for x in ast.walk(f) if isinstance(x, ast.ListComp) and src(x.elt) == "path[:idx]" and len(x.generators) == 1 and isinstance(x.generators[0].iter, ast.Call)
+                     and call_name(x.generators[0].iter) == "range" and len(x.generators[0].iter.args) == 2), None)
+        if comp is None:
+            raise Unrecognised("C04.G6", c, "computation of the nonterminal occurrences between anchor and node is not in the recognised shape")
+        lo, hi = (" ".join(src(a).split()) for a in comp.generators[0].iter.args)
+        filt = [" ".join(src(i).split()) for i in comp.generators[0].ifs]
+        if filt != ["context_tree.get_subtree(path[:idx]).value == nonterminal"]:
+            raise Unrecognised("C04.G6", c, f"occurrence filter {filt} not understood")
+        if hi in ("len(path) + 1", "1 + len(path)") and lo == "len(prefix) + 1":
+            ctx.viol("G6-level-anchors", c, "occurrences strictly between anchor and node", site(comp),
+                     f"the range ends at {hi}: `path[:len(path)]` is the argument node itself, so an argument that is itself labelled with the nonterminal counts as one nesting level below itself "
+                     "(level(\"EQ\", \"<block>\", b1, b2) on two <block> arguments changes its verdict)")
+        elif lo in ("len(prefix)",) and hi == "len(path)":
+            ctx.viol("G6-level-anchors", c, "occurrences strictly between anchor and node", site(comp),
+                     f"the range starts at {lo}: the anchor itself is counted as an occurrence below the anchor")
+        else:
+            raise Unrecognised("C04.G6", c, f"occurrence range range({lo}, {hi}) not understood")
+    else:
+        ctx.ok("G6-level-anchors", c, "occurrences strictly between anchor and node", site(f), "range(len(prefix) + 1, len(path))")
     # operator table, compared semantically: A = 'occurrences below the anchor on path 1', B = same for path 2
     from ..formulas import PropError, if_chain, truth_table
 
